@@ -102,7 +102,17 @@ def _is_unordered(fi: FuncInfo, e: ast.expr) -> bool:
         from ..astx import find_assign
 
         a = find_assign(fi.node, e.id)
-        if a and all(isinstance(x.value, (ast.Set, ast.SetComp)) or (isinstance(x.value, ast.Call) and src(x.value.func) in ("set", "frozenset")) for x in a if x.value is not None):
+
+        def set_valued(v: ast.AST) -> bool:
+            if isinstance(v, (ast.Set, ast.SetComp)) or (isinstance(v, ast.Call) and src(v.func) in ("set", "frozenset")):
+                return True
+            # set algebra: `set(xs) - {y}`, `a | b` with a set-valued operand
+            return isinstance(v, ast.BinOp) and isinstance(v.op, (ast.Sub, ast.BitOr, ast.BitAnd, ast.BitXor)) and (set_valued(v.left) or set_valued(v.right))
+
+        if a and all(set_valued(x.value) for x in a if x.value is not None):
+            return True
+        # bound to a set on *some* path (`xs = ordered; if c: xs = set(xs) - {y}`): the loop may run in set order
+        if a and any(x.value is not None and isinstance(x.value, ast.BinOp) and set_valued(x.value) for x in a):
             return True
         # bound (only) to calls of package functions that are declared to return a set
         if a and all(x.value is not None and _returns_set(x.value) for x in a):
